@@ -248,7 +248,57 @@ func (c *Ctx) ruleRangePairs(rule string) {
 					})
 					return okBody
 				})
-				R.Check(norm, rule, fi.Key+" Break normalised before return #"+itoa(k), P.Pos(rs), "`if err == Break { err = nil }` on every path to this return", "the error is returned without converting Break to nil: Break would propagate to the caller's loop and skip the siblings of this subtree")
+				if !norm {
+					// alternative discipline: every callback call before this return sits in an
+					// element body that clears Break itself, after the call (per-element reset)
+					pm := parentMap(fi.Decl.Body)
+					all, any := true, false
+					for _, br := range bodiesOf(fi) {
+						walk(br.Body, func(x ast.Node) bool {
+							call, ok := x.(*ast.CallExpr)
+							if !ok || call.Pos() >= rs.Pos() {
+								return true
+							}
+							id, ok := call.Fun.(*ast.Ident)
+							if !ok || (objOf(info, id) != pushCB && objOf(info, id) != popCB) {
+								return true
+							}
+							any = true
+							cleared := false
+							for p := pm[ast.Node(call)]; p != nil && !cleared; p = pm[p] {
+								var list []ast.Stmt
+								switch b := p.(type) {
+								case *ast.ForStmt:
+									list = b.Body.List
+								case *ast.FuncLit:
+									list = b.Body.List
+								default:
+									continue
+								}
+								for _, st := range list {
+									is, ok := st.(*ast.IfStmt)
+									if !ok || st.Pos() < call.Pos() || len(is.Body.List) != 1 {
+										continue
+									}
+									if be, ok := unparen(is.Cond).(*ast.BinaryExpr); ok && be.Op == token.EQL && objOf(info, be.X) == errObj {
+										if o := objOf(info, be.Y); o != nil && o.Name() == "Break" {
+											if as, ok := is.Body.List[0].(*ast.AssignStmt); ok && len(as.Lhs) == 1 && objOf(info, as.Lhs[0]) == errObj && isNilIdent(info, as.Rhs[0]) {
+												cleared = true
+											}
+										}
+									}
+								}
+								break
+							}
+							if !cleared {
+								all = false
+							}
+							return true
+						})
+					}
+					norm = any && all
+				}
+				R.Check(norm, rule, fi.Key+" Break normalised before return #"+itoa(k), P.Pos(rs), "`if err == Break { err = nil }` on every path to this return, or per element after each callback", "the error is returned without converting Break to nil: Break would propagate to the caller's loop and skip the siblings of this subtree")
 				return true
 			})
 		}
